@@ -214,6 +214,57 @@ pub mod thread {
 }
 
 ///
+/// Logging wrappers around `futures::channel::oneshot` (every operation on a channel is an event and a scheduling point)
+///
+pub mod oneshot {
+    pub use futures::channel::oneshot::Canceled;
+    use futures::channel::oneshot as fo;
+    use std::future::Future;
+    use std::pin::Pin;
+    use std::task::{Context, Poll};
+
+    pub struct Sender<T> { inner: Option<fo::Sender<T>>, id: usize }
+    pub struct Receiver<T> { inner: fo::Receiver<T>, id: usize }
+
+    pub fn channel<T>() -> (Sender<T>, Receiver<T>) {
+        let (s, r)  = fo::channel();
+        let id      = super::next_id("oneshot");
+        super::log("new", "oneshot", id, String::new());
+        (Sender { inner: Some(s), id }, Receiver { inner: r, id })
+    }
+
+    impl<T> Sender<T> {
+        pub fn send(mut self, t: T) -> Result<(), T> {
+            super::rt::thread::yield_now();
+            let r = self.inner.take().unwrap().send(t);
+            super::log("os", "send", self.id, if r.is_ok() { "ok".to_string() } else { "closed".to_string() });
+            r
+        }
+        pub fn id(&self) -> usize { self.id }
+    }
+
+    impl<T> Drop for Sender<T> {
+        fn drop(&mut self) {
+            if let Some(s) = self.inner.take() { drop(s); super::log("os", "txdrop", self.id, String::new()); }
+        }
+    }
+
+    impl<T> Future for Receiver<T> {
+        type Output = Result<T, Canceled>;
+        fn poll(mut self: Pin<&mut Self>, cx: &mut Context<'_>) -> Poll<Self::Output> {
+            super::rt::thread::yield_now();
+            let r = Pin::new(&mut self.inner).poll(cx);
+            super::log("os", "poll", self.id, match &r { Poll::Pending => "pending", Poll::Ready(Ok(_)) => "value", Poll::Ready(Err(_)) => "canceled" }.to_string());
+            r
+        }
+    }
+
+    impl<T> Drop for Receiver<T> {
+        fn drop(&mut self) { super::log("os", "rxdrop", self.id, String::new()); }
+    }
+}
+
+///
 /// Per-execution lazy statics that are never destructed (std's `lazy_static` never destructs either; shuttle's own
 /// are dropped at the end of an execution, which breaks statics whose `Drop` uses other statics)
 ///
